@@ -148,8 +148,12 @@ def unitary(kind, n, fill: Fill | None = None, variant: int = 0):
     if kind == "id" or n == 0:
         return O.qeye(n)
     if kind == "mono":
-        ps = perms(n)
-        p = ps[(variant * 7 + 1) % len(ps)]
+        if n <= 6:
+            ps = perms(n)
+            p = ps[(variant * 7 + 1) % len(ps)]
+        else:  # never enumerate n! permutations for larger n: a fixed cyclic shift
+            sh = 1 + (variant % (n - 1))
+            p = tuple((i + sh) % n for i in range(n))
         ph = [SIGNED_UNITS[(variant * 3 + 2 * i + 1) % 8] for i in range(n)]
         return monomial(p, ph).astype(float)
     if kind == "hh":
